@@ -337,6 +337,8 @@ def inline_new_helpers(project, ref) -> int:
                     # the header expressions of this statement
                     if isinstance(st, (ast.Assign, ast.AugAssign, ast.AnnAssign, ast.Return, ast.Expr)):
                         roots = [("value", st.value)] if getattr(st, "value", None) is not None else []
+                        if isinstance(st, ast.Assign) and len(st.targets) == 1 and isinstance(st.targets[0], ast.Subscript):
+                            roots.append(("_target_slice", st.targets[0].slice))   # a helper read in the index of an element store
                     elif isinstance(st, (ast.If, ast.While)):
                         roots = [("test", st.test)]
                     elif isinstance(st, ast.For):
@@ -349,7 +351,7 @@ def inline_new_helpers(project, ref) -> int:
                         guard = 0
                         while guard < 12:
                             guard += 1
-                            root = getattr(st, fld)
+                            root = st.targets[0].slice if fld == "_target_slice" else getattr(st, fld)
                             cands = candidates(root, f)
                             if not cands:
                                 break
@@ -359,7 +361,11 @@ def inline_new_helpers(project, ref) -> int:
                             if kind == "expr" and simple_args:
                                 pre, val = instantiate(g, "expr", m, getattr(node, "lineno", st.lineno))
                                 if not pre:
-                                    setattr(st, fld, replace(root, node, ast.copy_location(val, node)))
+                                    new_root = replace(root, node, ast.copy_location(val, node))
+                                    if fld == "_target_slice":
+                                        st.targets[0].slice = new_root
+                                    else:
+                                        setattr(st, fld, new_root)
                                     changed += 1
                                     continue
                             if node is root and fld == "value" and isinstance(st, (ast.Return, ast.Assign, ast.Expr)) and not isinstance(st, ast.While):
@@ -378,7 +384,11 @@ def inline_new_helpers(project, ref) -> int:
                             if new is None:
                                 break
                             pre_all.extend(new)
-                            setattr(st, fld, replace(root, node, ast.copy_location(ast.Name(id=tmp, ctx=ast.Load()), node)))
+                            new_root = replace(root, node, ast.copy_location(ast.Name(id=tmp, ctx=ast.Load()), node))
+                            if fld == "_target_slice":
+                                st.targets[0].slice = new_root
+                            else:
+                                setattr(st, fld, new_root)
                             changed += 1
                         if replaced_stmt is not None:
                             break
